@@ -168,8 +168,9 @@ def run_case(col, pp, cfg, case):
                                                                        'stock': ref.conc(sbase, solute.name, num, den)}, case)
     # (2) aliquots and ledger
     taken = {n: sbase.get(n, 0.0) - rbase.get(n, 0.0) for n in sbase}
-    fr = [taken[n] / sbase[n] for n in sbase if sbase[n] > 0]
-    f_mean = sum(fr) / len(fr) if fr else 0.0
+    # common fraction: substances weighted by the number of storage grains they hold
+    wts = {n: sbase[n] / ref.grain_base(n) for n in sbase if sbase[n] > 0}
+    f_mean = sum(wts[n] * taken[n] / sbase[n] for n in wts) / sum(wts.values()) if wts else 0.0
     for n in sbase:
         if abs(taken[n] - f_mean * sbase[n]) > 4 * ref.grain_base(n) + 1e-7 * sbase[n]:
             col.report(f"create_solution_from/stock-part-not-uniform-aliquot/{form}-solvent",
@@ -177,8 +178,8 @@ def run_case(col, pp, cfg, case):
     if container_solvent:
         vres = world.base(bench.view_container(res[1]))
         vtaken = {n: vbase.get(n, 0.0) - vres.get(n, 0.0) for n in vbase}
-        fr2 = [vtaken[n] / vbase[n] for n in vbase if vbase[n] > 0]
-        m2 = sum(fr2) / len(fr2) if fr2 else 0.0
+        wts2 = {n: vbase[n] / ref.grain_base(n) for n in vbase if vbase[n] > 0}
+        m2 = sum(wts2[n] * vtaken[n] / vbase[n] for n in wts2) / sum(wts2.values()) if wts2 else 0.0
         for n in vbase:
             if abs(vtaken[n] - m2 * vbase[n]) > 4 * ref.grain_base(n) + 1e-7 * vbase[n]:
                 col.report("create_solution_from/solvent-part-not-uniform-aliquot", {'substance': n}, case)
